@@ -1,9 +1,10 @@
 import DepsDev.Proofs.C03L3Npm
 
 /-!
-# C03 layer L3 for npm, operator `caret`: one comparator, prerelease candidates
+# C03 layer L3 for npm, operator `caret`: one comparator, prerelease candidates (operands without tag)
 
-See `C03L3Npm` for the statement (`L3Npm`) and the proof script.
+See `C03L3Npm` for the statements and the proof script; `C03L3NpmCaretP` has the tagged operands
+and the assembled `L3Npm .caret`.
 -/
 namespace DepsDev.Proofs.C03
 
@@ -13,12 +14,6 @@ set_option linter.unusedSimpArgs false
 set_option linter.unusedVariables false
 
 theorem l3_full_caret : L3Full .caret := by l3_full
-theorem l3_pre_lt_caret : L3PreO .caret .lt := by l3_pre
-theorem l3_pre_eq_caret : L3PreO .caret .eq := by l3_pre
-theorem l3_pre_gt_caret : L3PreO .caret .gt := by l3_pre
 theorem l3_part_caret : L3Part .caret := by l3_part
-
-theorem l3_npm_caret : L3Npm .caret :=
-  l3_assemble _ l3_full_caret (l3_pre_assemble _ l3_pre_lt_caret l3_pre_eq_caret l3_pre_gt_caret) l3_part_caret
 
 end DepsDev.Proofs.C03
